@@ -80,6 +80,7 @@ func genCutEnum(seed uint64, prop string) *Scenario {
 	r := rand.New(rand.NewPCG(seed/CutSpace, 0x637574))
 	cfg.Policy = []string{"coarse", "fine", "coarse", "pct"}[r.IntN(4)]
 	cfg.PCTDepth = 2
+	cfg.Bystander = (seed/CutSpace)%2 == 1 // every other visit of a cut point has a standby session connected
 	sc := &Scenario{Family: "cutenum", Seed: seed, Cfg: cfg}
 	g := newGen(seed/CutSpace, 0x637575, &sc.Cfg)
 	sc.Steps = append(sc.Steps, prepSteps(g)...)
@@ -113,6 +114,7 @@ func genCut(seed uint64, prop string) *Scenario {
 	cfg.PCTDepth = 1 + r.IntN(3)
 	cfg.Window = []int{1, 0, 2, 8}[r.IntN(4)]
 	cfg.FIBAck = r.IntN(2) == 0
+	cfg.Bystander = r.IntN(2) == 0 // a standby that announced a low id stays connected throughout
 	sc := &Scenario{Family: "cut", Seed: seed, Cfg: cfg}
 	g := newGen(seed, 0x637577, &sc.Cfg)
 	if r.IntN(3) != 0 {
@@ -472,6 +474,21 @@ func runCut(e *env) {
 	elec := [2]uint64{0, 1}
 	var prep *session
 	var script []*Step
+	var standby *session
+	if e.sc.Cfg.Bystander {
+		// A standby session: negotiated, announced a low id once, idle ever after. Whoever else
+		// goes away, it stays a non-primary, stays connected, and the highest learnt id stays what it was.
+		standby = e.openSession([2]uint64{0, 1}, e.sc.Cfg.FIBAck)
+		e.standbySessions = 1
+	}
+	defer func() {
+		if standby == nil || len(e.viol) > 0 {
+			return
+		}
+		if standby.mc.Stream().Dead() || standby.mc.Stream().QueuedToClient() > 0 {
+			e.report("C10", "bystander-disturbed", "a standby session was terminated or received messages when another client went away", fmt.Sprintf("dead=%v result=%v queued=%d", standby.mc.Stream().Dead(), standby.mc.Stream().Result(), standby.mc.Stream().QueuedToClient()), false)
+		}
+	}()
 	closePrep := func() {
 		if prep != nil && !prep.dead && !prep.closed {
 			// the preparing session leaves cleanly first
@@ -642,8 +659,8 @@ func (e *env) cutModify(script []*Step, cut *Step) {
 				}
 			}
 		}
-		if n := len(e.srv.VerifSessions()); n != 0 {
-			e.report("C10", "session-footprint", "session table not empty after the only client went away", fmt.Sprintf("%d sessions tracked", n), false)
+		if n := len(e.srv.VerifSessions()); n != e.standbySessions {
+			e.report("C10", "session-footprint", "session table not empty after the only client went away", fmt.Sprintf("%d sessions tracked, %d standby sessions connected", n, e.standbySessions), false)
 		}
 		e.checkRefCounts("C10")
 	})
@@ -787,8 +804,8 @@ func (e *env) liveness(when string) {
 	e.checkpoint(func() {
 		e.compareStateAs("C10", "after the liveness probe "+when)
 		e.checkRefCounts("C10")
-		if n := len(e.srv.VerifSessions()); n != 0 {
-			e.report("C10", "session-footprint", "session table not empty after every client left", fmt.Sprintf("%d sessions tracked", n), false)
+		if n := len(e.srv.VerifSessions()); n != e.standbySessions {
+			e.report("C10", "session-footprint", "session table not empty after every client left", fmt.Sprintf("%d sessions tracked, %d standby sessions connected", n, e.standbySessions), false)
 		}
 	})
 }
